@@ -167,9 +167,9 @@ class Engine(Interp):
         if isinstance(b, Undefined):
             raise UndefinedUse('use of an undefined value')
         if isinstance(a, Guarded):
-            return self._boolify(self.dist(a, lambda v: self._lb(self.compare(op, v, b, pc))))
+            return self._boolify(self.dist_pc(a, pc, lambda v, p: self._lb(self.compare(op, v, b, p))))
         if isinstance(b, Guarded):
-            return self._boolify(self.dist(b, lambda v: self._lb(self.compare(op, a, v, pc))))
+            return self._boolify(self.dist_pc(b, pc, lambda v, p: self._lb(self.compare(op, a, v, p))))
         t = type(op)
         if t in (ast.Is, ast.IsNot):
             r = self.identical(a, b)
